@@ -15,6 +15,8 @@
 package adt
 
 import (
+	"math"
+
 	"cuelang.org/go/internal"
 	"github.com/cockroachdb/apd/v3"
 )
@@ -31,16 +33,33 @@ func (a *Num) Cmp(b *Num) int {
 	return a.X.Cmp(&b.X)
 }
 
+// arithContext returns the decimal context for a + b, a - b or a * b.
+// Integers have arbitrary precision, so if both operands are integers the
+// context has enough digits for the exact result: rounding it to the
+// precision of [internal.BaseContext] would silently change its value.
+func arithContext(a, b *Num) *internal.Context {
+	ctx := internal.BaseContext
+	if a.K == IntKind && b.K == IntKind {
+		digits := func(d *apd.Decimal) int64 {
+			return d.NumDigits() + int64(max(d.Exponent, 0))
+		}
+		if n := digits(&a.X) + digits(&b.X) + 1; n > int64(ctx.Precision) && n < math.MaxUint32 {
+			ctx.Precision = uint32(n)
+		}
+	}
+	return &ctx
+}
+
 func (c *OpContext) Add(a, b *Num) Value {
-	return numOp(c, internal.BaseContext.Add, a, b)
+	return numOp(c, arithContext(a, b).Add, a, b)
 }
 
 func (c *OpContext) Sub(a, b *Num) Value {
-	return numOp(c, internal.BaseContext.Sub, a, b)
+	return numOp(c, arithContext(a, b).Sub, a, b)
 }
 
 func (c *OpContext) Mul(a, b *Num) Value {
-	return numOp(c, internal.BaseContext.Mul, a, b)
+	return numOp(c, arithContext(a, b).Mul, a, b)
 }
 
 func (c *OpContext) Quo(a, b *Num) Value {
